@@ -118,7 +118,7 @@ pub fn run(tier: Tier) -> i32 {
     let b = bounds(Prop::C02, tier);
     let thorough = tier == Tier::Thorough;
     let u = universe(b.n_seg, b.n_leg, b.n_tap, b.alpha);
-    let models = descriptor_models(&u, b.n_seg, b.n_shwsh, b.n_leg, b.n_tap, b.n_part);
+    let models = crate::sat::descriptor_models_ctx(&u, b.n_seg, b.n_shwsh, b.n_leg, b.n_tap, b.n_part, b.n_seg - 1);
     rep.extra("bounds", json!({"nodes": {"wsh": b.n_seg, "sh-wsh": b.n_shwsh, "sh": b.n_leg, "tr": b.n_tap}}));
     let cen = models
         .par_iter()
